@@ -17,7 +17,8 @@ RULE = ("effect expressions (intercept, numeric, categorical, transforms, intera
 EXHAUSTIVE = {"quick": True, "thorough": True}
 
 EFFECTS = ["1", "x", "0 + x", "f", "0 + f", "x + z", "0 + x + z", "x:z", "center(x)", "scale(z)", "x:f", "0 + x:f",
-           "f + h", "0 + f + h", "f:h", "x + f", "0 + x + f", "1 + x", "C(k)", "0 + C(k)", "x*z", "f*h", "I(x + 1)"]
+           "f + h", "0 + f + h", "f:h", "x + f", "0 + x + f", "1 + x", "C(k)", "0 + C(k)", "x*z", "f*h", "I(x + 1)",
+           "0 + bs(x, df=3)", "bs(x, df=3)", "0 + poly(x, 2, raw=True)", "poly(z, 2, raw=True)"]
 GROUPS = ["g", "g:h", "g + h", "g/h", "C(k)", "k", "o"]
 
 
